@@ -70,7 +70,7 @@ def _need_ok(res, what: str) -> None:
 # ================================================================================================
 # the judge: TLC evaluates the property on observed results
 # ================================================================================================
-def judge(ctx, structs: list, fix: list, ren: list, tag: str, chunk: int = 100000):
+def judge(ctx, structs: list, fix: list, ren: list, tag: str, chunk: int = 50000):
     """fix: [sidx, pre, post, cf]; ren: [pre, pairs, post, out]. Returns (fix verdicts, ren verdicts):
     fix verdict i = (broken clauses, conforms); ren verdict i = holds."""
     fv, rv = [None] * len(fix), [None] * len(ren)
@@ -82,10 +82,16 @@ def judge(ctx, structs: list, fix: list, ren: list, tag: str, chunk: int = 10000
     for k, (kind, off, part) in enumerate(jobs):
         path = os.path.join(ctx.scratch, f"judge_{tag}_{k}.json")
         with open(path, "w") as f:
-            json.dump({"structs": structs if kind == "fix" else [], "fix": part if kind == "fix" else [],
-                       "ren": part if kind == "ren" else []}, f)
+            if kind == "fix":
+                # only the structures this batch refers to (TLC parses the file once per worker)
+                used = sorted({o[0] for o in part})
+                remap = {s: i + 1 for i, s in enumerate(used)}
+                json.dump({"structs": [structs[s - 1] for s in used],
+                           "fix": [[remap[o[0]]] + list(o[1:]) for o in part], "ren": []}, f)
+            else:
+                json.dump({"structs": [], "fix": [], "ren": part}, f)
         res = _tlc(ctx, _p("NamesJudge.tla"), _p("NamesJudge.cfg"), tag=f"judge-{tag}-{k}", env={"JUDGE_FILE": path},
-                      deadlock=False, timeout=3000)
+                   deadlock=False, timeout=3000, workers=min(NCPU, 8), heap="6g")
         _need_ok(res, f"judge {tag}/{k}")
         for r in res.records():
             if not isinstance(r, list) or not r:
